@@ -3,7 +3,7 @@ sys.path.insert(0, os.path.dirname(os.path.abspath(__file__)))
 import win, vlib
 
 ASSUME = ["window output buffer never overflows (<= 20 pending batches vs capacity)", "single producer: Emit order = ingest order",
-          "IDLETIMEOUT unset; event-time windows only (processing time is covered by the abstract model, not replayed)",
+          "IDLETIMEOUT unset", "processing time: a row's engine-side timestamp is bracketed by the wall clock before Emit and at the end of window.Add; a row whose bracket straddles an interval boundary is accepted in either interval; rows still unreported 3 s + (held+3) window sizes after the last Emit count as lost",
           "results observed through a synchronous sink"]
 
 
@@ -20,7 +20,11 @@ def run(tier):
                 ("tumbling", dict(size=3, moo=2, al=0, maxts=7, maxev=4))]
         free = [("tumbling", dict(size=2, moo=1, al=0), 400, 60), ("tumbling", dict(size=3, moo=4, al=0), 300, 80),
                 ("tumbling", dict(size=1, moo=0, al=0), 200, 50)]
-    return win.run_family("C01", tier, plan, free, ASSUME)
+    if tier == "quick":
+        post = lambda res, rng, vh, scen: win.proc_stage(res, rng, vh, scen, nmodel=120, nfree=12)
+    else:
+        post = lambda res, rng, vh, scen: win.proc_stage(res, rng, vh, scen, maxnow=6, maxev=4, nmodel=1500, nfree=100, mc=dict(size=3, maxnow=10, maxev=5))
+    return win.run_family("C01", tier, plan, free, ASSUME, post=post)
 
 
 if __name__ == "__main__":
